@@ -152,7 +152,8 @@ def get_noisy_evaluations_chol(means: np.ndarray, cholesky_cov: np.ndarray) -> n
         raise AssertionError("Invalid dimensions.")
     n, d = means.shape[0], len(cholesky_cov)
     X = np.random.normal(size=(n, d))
-    complicated_X = np.dot(X, cholesky_cov)
+    # cholesky_cov is the lower factor L (cov = L L^T), so a row of noise is z L^T.
+    complicated_X = np.dot(X, cholesky_cov.T)
 
     noisy_samples = means + complicated_X
 
